@@ -5,15 +5,14 @@ from vlib import core
 KEYS = [97, 98, 8, 27, 91, 65, 66, 67, 68, 51, 126, 13, 10, 3]
 
 
-def build(ctx):
+def build(ctx, alt=False):
     R = core.REPO
-    o = ctx.cxx("drv_term_xx.o", [], flags=[]) if False else None
     # the C++ twin needs -fno-access-control; build it as a separate object
     import os, subprocess
-    obj = os.path.join(ctx.work, "drv_term_xx.o")
-    ctx.sh(["g++", "-std=gnu++20", "-g", "-O1", "-fsanitize=address", "-fno-omit-frame-pointer", "-fno-access-control", "-w",
+    obj = os.path.join(ctx.work, "drv_term_xx%s.o" % ("_alt" if alt else ""))
+    ctx.sh(["g++", "-std=gnu++20", "-g"] + core.opt_flags(alt) + ["-fsanitize=address", "-fno-omit-frame-pointer", "-fno-access-control", "-w",
             "-I" + R, "-I" + core.HARNESS, "-c", os.path.join(core.HARNESS, "drv_term_xx.cpp"), "-o", obj], timeout=600)
-    return ctx.cxx("drv_term", ["drv_term.cpp", R + "/igris/shell/vterm.c", R + "/igris/shell/vtermxx.cpp", R + "/igris/util/numconvert.c"], objs=[obj])
+    return ctx.cxx("drv_term" + ("_alt" if alt else ""), ["drv_term.cpp", R + "/igris/shell/vterm.c", R + "/igris/shell/vtermxx.cpp", R + "/igris/util/numconvert.c"], objs=[obj], alt=alt)
 
 
 def random_keys(rng, kind, cap, depth, n):
@@ -129,6 +128,12 @@ def check(ctx):
     t3 = ctx.drive(drv, huge, "term_huge", timeout=1500, par=2, lines_per_proc=1000)
     bad = ctx.judge("LineEditTrace", [t1, t2, t3])
     for b in bad: b["driver"] = "drv_term"
+    # the second build configuration (size-optimised, plain char unsigned) on part of the executions
+    drva = build(ctx, alt=True)
+    ta = [ctx.drive(drva, core.subset_executions(script, ctx.seed, 1.0 if ctx.thorough else 0.25), "term_cover_alt"), ctx.drive(drva, core.subset_executions(rnd, ctx.seed, 1.0 if ctx.thorough else 0.34), "term_random_alt")]
+    bada = ctx.judge("LineEditTrace", ta)
+    for b in bada: b["driver"] = "drv_term@alt"
+    bad += bada
     ctx.report(bad)
     ctx.assumptions += [
         "key semantics are those stated at the top of LineEdit.tla (delete acts at the '3' of ESC [ 3 ~; a CR/LF swallowed by an escape still pairs)",
@@ -140,7 +145,7 @@ def check(ctx):
 
 def replay(ctx, path):
     d = json.load(open(path))
-    drv = build(ctx)
+    drv = build(ctx, alt=core.is_alt(d))
     lines = []
     for e in d["execution"]:
         n = e["e"]
